@@ -332,8 +332,10 @@ def random_cfg(rng: random.Random, profile: str) -> dict:
         cfg["feeN"], cfg["feeD"] = rng.choice([(0, 1), (1, 1000), (25, 10000), (1, 100), (1, 10), (999, 1000)])
         cfg["minFeeN"], cfg["minFeeD"] = rng.choice([(0, 1), (0, 1), (1, 200), (1, 2), (3, 1)])
     if liq == "share":
-        cfg["vlN"], cfg["vlD"] = rng.choice([(1, 4), (1, 10), (1, 2), (1, 3), (1, 1), (0, 1)])
+        cfg["vlN"], cfg["vlD"] = rng.choice([(1, 4), (1, 10), (1, 2), (3, 20), (1, 1), (0, 1)])  # terminating decimals only: the code works in Decimal
         cfg["vs"] = rng.choice([1, 1, 10])
+        cfg["impactPct"] = rng.choice([0, 0, 10, 25, 100])          # price impact constant (percent); 10 is the library default
+        cfg["impact"] = cfg["impactPct"] > 0
     if lend == "margin" and rng.random() < 0.2:
         # dust equity against huge loans: the margin level is a tiny positive number (0.00..% once rounded)
         cfg["scale"] = {s: 1 for s in syms}
